@@ -232,6 +232,7 @@ CHECKS = {
         stages=[
             mc("index-paths", "MC_C02.tla", "MC_C02.cfg"),
             mc("elementwise-logic", "MC_C02b.tla", "MC_C02b.cfg", workers=4),
+            mc("call-result-indexing", "MC_C03.tla", "MC_C03_concat.cfg"),
             lang("containers", "c02", 4000, 120000, ["--nctx", "6", "--depth", "3", "--nestpct", "45"], shards=SH),
             lang("rich", "rich", 2000, 60000, ["--nctx", "5", "--depth", "3"], shards=SH, seed_off=1),
         ],
@@ -248,6 +249,7 @@ CHECKS = {
             mc("calls-concat", "MC_C03.tla", "MC_C03_concat.cfg"),
             mc("calls-optional-params", "MC_C03.tla", "MC_C03_opt2.cfg"),
             mc("calls-dropping", "MC_C03.tla", "MC_C03_drop.cfg"),
+            mc("calls-two-arguments-other-type", "MC_C03.tla", "MC_C03_plen.cfg"),
             mc("calls-2", "MC_C03.tla", dict(quick=None, thorough="MC_C03_2.cfg")),
             mc("calls-3", "MC_C03.tla", dict(quick=None, thorough="MC_C03_3.cfg")),
             lang("calls", "rich", 4000, 150000, ["--nctx", "6", "--depth", "3", "--callpct", "70"], shards=SH),
